@@ -422,6 +422,9 @@ def run_shard(spec, ctx):
 
 def replay(rec, ctx):
     ns = load()
+    if rec.get("concurrent"):
+        run_threads(ns, ctx, {"rounds": 4})
+        return
     conf = {(k, v): bytes.fromhex(c) for k, v, c in rec["conf"]} if rec.get("conf") else None
     specs = GB.spec_from_json(rec["blocks"])
     subs = [frozenset(rec["subset"])] if rec.get("subset") is not None else all_subsets(len(specs))
